@@ -23,8 +23,11 @@ class C03(Check):
                 ('pred', 'geq', ('a1', 'neg', ('evt', 0, 1, ('var', 0))), ('const', 0)), ('and', ('evt', 1, 3, P), ('histt', 0, 1, Q)),
                 ('and', ('evt', 1, 3, P), ('oncet', 1, 2, Q)), ('and', ('next', P), ('since', P, Q)), ('evt', 0, 1, ('alwt', 0, 2, P)),
                 ('histt', 1, 2, ('evt', 1, 1, ('var', 0))), ('sprev', ('a1', 'neg', ('snext', ('var', 1)))), ('once', ('next', P)),
-                ('implies', P, ('evt', 1, 2, Q)), ('not', ('untilt', 0, 1, Q, P)), ('hist', Q), ('sincet', 0, 2, P, Q)]
-        items = [(f, 2, 'stl') for f in base]
+                ('implies', P, ('evt', 1, 2, Q)), ('not', ('untilt', 0, 1, Q, P)), ('hist', Q), ('sincet', 0, 2, P, Q),
+                # a bounded since / once / historically next to a sibling with a larger look-ahead: the past operator itself is delayed
+                ('and', ('sincet', 1, 2, P, Q), ('evt', 0, 3, P)), ('or', ('next', Q), ('sincet', 0, 2, P, Q)), ('and', ('since', P, Q), ('alwt', 1, 2, Q)),
+                ('or', ('sincet', 2, 3, Q, P), ('snext', ('next', P))), ('and', ('oncet', 1, 2, P), ('evt', 2, 3, Q)), ('or', ('histt', 0, 2, P), ('evt', 1, 2, Q))]
+        items = [(f, 2, 'stl') for f in base for _ in range(3)]
         items += [(f, 2, 'ltl') for f in [('and', ('next', P), Q), ('or', ('snext', ('next', P)), ('prev', Q)), ('a2', 'add', ('next', ('var', 0)), ('var', 1)),
                                          ('implies', Q, ('next', ('not', P))), ('pred', 'geq', ('a1', 'neg', ('next', ('var', 0))), ('var', 1))]]
         for i in range(nrand):
